@@ -71,6 +71,8 @@ def main():
         chk = Check(pid, a.tier, level)
         chk.extra["facts_key"] = key
         try:
+            from common import config_guard
+            config_guard(chk, facts.REPO)
             fn(chk, prog)
             if a.tier == "thorough":
                 import thorough
